@@ -29,6 +29,13 @@ is a fixed function of (check, family); the site is ``Msg.Block.Var[ctx]:<where>
      (pod-reencode).
  (e) Block cache: set raw r1, deserialize_var, set raw r2 via Block.__setitem__, deserialize_var again == fresh
      deserialize(r2); same after serialize_var and after assigning Pretty(value) (cache-invalidation).
+     (e2) assignment styles, every integer-typed entry: the raw value is assigned as plain int / member *instance* of
+     the entry's own enum or flag class (every member for <= 12 values, else first/middle/last; flags also 0 and an OR
+     of two members) / member of an unrelated IntEnum with the same value / Pretty(value): every single assignment
+     and all 4^3 orders of three assignments, checked after every step and only after the last; required each time:
+     block[v] == the integer, deserialize_var(v) == decoding of the NEW integer (object; pod of the stored raw),
+     serialize_var(v, deserialize_var(v)) leaves the raw unchanged (cache-invalidation, sites :assign:<style> /
+     :seq:<s1>><s2>><s3>:<each|end> + :raw|:stale-object|:stale-pod|:writeback).
  (f) date entries (adapter class DateAdapter) under process TZ in {UTC, America/Los_Angeles, Europe/London,
      Australia/Lord_Howe}, TZ switched with os.environ+time.tzset() only inside dedicated forked workers (hmc.subfieldgen
      .tz_map; replay of a TZ witness forks as well).  Input families: 'boundary' = the int alphabet (date-roundtrip /
@@ -748,6 +755,148 @@ def unit_cache(ent: Entry) -> dict:
     return part.dump()
 
 
+# ------------------------------------------------------------------------------------------------ (e2) assignment styles
+_STYLES = ("int", "member", "foreign", "pretty")
+_FOREIGN: Dict[int, Any] = {}
+
+
+def _foreign_member(n: int):
+    """A member of an IntEnum class unrelated to the library whose integer value is n."""
+    import enum as _enum
+    m = _FOREIGN.get(n)
+    if m is None:
+        m = _FOREIGN[n] = _enum.IntEnum(f"HarnessForeign_{n & 0xFFFFFFFFFFFFFFFF:x}", {"MEMBER": n}).MEMBER
+    return m
+
+
+def _own_class(ent: Entry):
+    return getattr(ent.adapter, "enum_cls", None) or getattr(ent.adapter, "flag_cls", None)
+
+
+def assign_values(ent: Entry) -> List[int]:
+    """Integers used as assignment targets: members of the entry's own enum/flag class (all for <= 12 distinct values,
+    else first / middle / last), for flags also 0 and the OR of the first two members; for entries without an enum class
+    the first values of the small alphabet.  Only values of the wire type that decode without raising."""
+    lo, hi = sg.int_range(ent.wire)
+    cls = _own_class(ent)
+    vals: List[int] = []
+    if cls is not None:
+        mem = []
+        for m in cls.__members__.values():
+            if int(m) not in mem and lo <= int(m) <= hi:
+                mem.append(int(m))
+        vals = mem if len(mem) <= 12 else [mem[0], mem[len(mem) // 2], mem[-1]]
+        if hasattr(ent.adapter, "flag_cls"):
+            vals = vals + [0] + ([mem[0] | mem[1]] if len(mem) >= 2 else [])
+    else:
+        vals = [v for v in sg.small_int_alphabet(ent.wire)][:6]
+    out = []
+    for v in vals:
+        if lo <= v <= hi and v not in out:
+            out.append(v)
+    return out
+
+
+def _make_assigned(ent: Entry, style: str, n: int, expected_obj: Any):
+    if style == "int":
+        return n
+    if style == "member":
+        cls = _own_class(ent)
+        return cls(n) if cls is not None else _foreign_member(n)
+    if style == "foreign":
+        return _foreign_member(n)
+    if style == "pretty":
+        return dtypes.Pretty(expected_obj)
+    raise ValueError(style)
+
+
+def run_assign_sequence(part: Part, ent: Entry, ctxval, init: int, steps: List[Tuple[str, int]], mode: str, site: str) -> bool:
+    """Prime the cache on raw ``init``; apply the assignments; after each (mode 'each') or only after the last one
+    (mode 'end') require: stored raw == the integer assigned, deserialize_var == decoding of that integer (object form;
+    the pod decoding of the stored raw as well), serialize_var(deserialize_var()) leaves the raw value unchanged."""
+    ser, var = ent.ser, ent.key[2]
+    w = {"kind": "cache-seq", "key": list(ent.key), "ctx": ctxval, "init": init, "steps": [list(x) for x in steps], "mode": mode}
+    fresh = make_block(ent, ctxval)
+
+    def dec(n, pod=False):
+        return ser.deserialize(fresh, n, pod=pod)
+
+    blk = make_block(ent, ctxval, init)
+    blk.deserialize_var(var)
+    ok = True
+    for i, (style, n) in enumerate(steps):
+        exp = dec(n)
+        blk[var] = _make_assigned(ent, style, n, exp)
+        if mode == "end" and i + 1 < len(steps):
+            continue
+        where = f"step {i + 1} ({style} {n}) of init={init} {steps}"
+        raw_now = blk[var]
+        rt_ok = _same_raw(ser.serialize(fresh, exp), n)  # family (a) judges the codec; here only the cache protocol
+        if style == "pretty" and not rt_ok:
+            continue
+        if not _same_raw(raw_now, n):
+            part.violation("cache-invalidation", f"{site}:raw", w, f"{where}: block[{var!r}] is {raw_now!r}, expected {n}")
+            ok = False
+            continue
+        got = blk.deserialize_var(var)
+        if not sg.same(got, exp):
+            part.violation("cache-invalidation", f"{site}:stale-object", w, f"{where}: deserialize_var returned {got!r:.120}, the decoding of {n} is {exp!r:.120}")
+            ok = False
+        pod_now, pod_exp = ser.deserialize(blk, blk[var], pod=True), dec(n, pod=True)
+        if not (pod_now is pod_exp or sg.same(pod_now, pod_exp)):
+            part.violation("cache-invalidation", f"{site}:stale-pod", w, f"{where}: pod decoding {pod_now!r:.120}, expected {pod_exp!r:.120}")
+            ok = False
+        if rt_ok:
+            blk.serialize_var(var, blk.deserialize_var(var))
+            if not _same_raw(blk[var], n):
+                part.violation("cache-invalidation", f"{site}:writeback", w, f"{where}: serialize_var(deserialize_var()) changed the raw value {n} to {blk[var]!r}")
+                ok = False
+    return ok
+
+
+def unit_assign(ent: Entry) -> dict:
+    """(e2) raw values assigned as plain int / member instance of the entry's own enum or flag class / member of an
+    unrelated IntEnum / Pretty(value): every single assignment for every target value, and every sequence of three
+    assignments over the four styles (4^3 orders), checked after each step and only at the end."""
+    import itertools
+    part = Part()
+    acc = Acc(part)
+    ctxval = context_values(ent, False)[0]
+    fresh = make_block(ent, ctxval)
+    vals = []
+    for v in assign_values(ent):
+        try:
+            d = ent.ser.deserialize(fresh, v, pod=False)
+        except Exception:
+            continue
+        if d is not se.UNSERIALIZABLE:
+            vals.append(v)
+    if len(vals) < 2:
+        part.count("assign_skipped_single_value")
+        return part.dump()
+    base = f"{ent.keystr}{ctx_label(ent, ctxval)}"
+    styles = [st for st in _STYLES if st != "member" or _own_class(ent) is not None]
+    for j, n in enumerate(vals):
+        init = vals[(j + 1) % len(vals)]
+        for style in styles:
+            acc.evals += 1
+            if run_assign_sequence(part, ent, ctxval, init, [(style, n)], "each", f"{base}:assign:{style}"):
+                acc.nontrivial((ent.idx, "assign", style, n))
+    trip = [vals[0], vals[len(vals) // 2], vals[-1]] if len(vals) >= 3 else [vals[0], vals[1], vals[0]]
+    init = vals[1] if len(vals) >= 3 and vals[1] not in trip[:1] else vals[-1]
+    for combo in itertools.product(styles, repeat=3):
+        for mode in ("each", "end"):
+            acc.evals += 1
+            if run_assign_sequence(part, ent, ctxval, init, list(zip(combo, trip)), mode, f"{base}:seq:{'>'.join(combo)}:{mode}"):
+                acc.nontrivial((ent.idx, "seq", combo, mode))
+    acc.outcome((ent.idx, "assign", len(vals), len(styles)))
+    part.count("assign_units")
+    part.sample({"family": "cache-assign", "key": ent.keystr, "own_class": getattr(_own_class(ent), "__name__", None), "values": vals,
+                 "styles": styles, "sequences": len(styles) ** 3 * 2}, limit=1)
+    acc.flush()
+    return part.dump()
+
+
 # ------------------------------------------------------------------------------------------------ driver
 def _work(item) -> dict:
     kind = item[0]
@@ -759,6 +908,8 @@ def _work(item) -> dict:
         return unit_tier2(item[1:])
     if kind == "cache":
         return unit_cache(_ENTRIES[item[1]])
+    if kind == "assign":
+        return unit_assign(_ENTRIES[item[1]])
     raise ValueError(kind)
 
 
@@ -822,6 +973,8 @@ def run(run: Run):
     for e in ents:
         if e.kind in ("int", "payload"):
             units.append(("cache", e.idx))
+        if e.kind == "int" and not e.is_date:
+            units.append(("assign", e.idx))
     order = heavy + units
     _worked_samples(run)
     for d in pmap(_work, order, run.jobs, chunksize=1):
@@ -896,6 +1049,8 @@ def _replay_local(w: dict) -> List[dict]:
         _encode_own(acc, ent, block, w.get("ctx"), vals)
     elif kind == "cache":
         return unit_cache(ent)["violations"]
+    elif kind == "cache-seq":
+        run_assign_sequence(part, ent, w.get("ctx"), int(w["init"]), [(st, int(n)) for st, n in w["steps"]], w["mode"], "replay")
     return list(part.viol.values())
 
 
